@@ -5,6 +5,7 @@ import (
 	"time"
 
 	"github.com/chrislusf/seaweedfs/weed/pb/filer_pb"
+	"github.com/chrislusf/seaweedfs/weed/util"
 	rt "github.com/chrislusf/seaweedfs/weed/zzverifrt"
 	"github.com/golang/protobuf/proto"
 )
@@ -98,7 +99,10 @@ func (v *verifC22) runFlusher() {
 // once, in increasing timestamp order.
 func VerifC22_Subscribe() {
 	k := rt.Param("events", 4)
-	v := verifC22New(rt.Param("bufsize", 40)) // an event takes 4+12+1 bytes: two fit
+	// buffers sized to hold exactly `perbuf` events, whatever the encoding in use makes of one event
+	sample, _ := proto.Marshal(&filer_pb.LogEntry{TsNs: verifC22Base + 1, PartitionKeyHash: util.HashToInt32([]byte("k")), Data: []byte{'a'}})
+	entry := len(sample) + 4
+	v := verifC22New(rt.Param("perbuf", 2)*entry + entry - 1)
 	for i := 0; i < k; i++ {
 		ts := verifC22Base + int64(rt.U8("ts"))
 		v.lb.AddToBuffer([]byte("k"), []byte{byte('a' + i)}, ts)
